@@ -5,7 +5,7 @@ cd "$(dirname "$0")/.."
 pat=${1:-*}
 for d in seeded/$pat; do
   s=$(basename $d); p=${s%%-*}
-  out=$(tools/run_seed.sh $s $p quick 2>&1)
+  out=$(SEED_SCRATCH=1 tools/run_seed.sh $s $p quick 2>&1)
   rc=$(echo "$out" | sed -n 's/.*exit=\([0-9]*\).*/\1/p' | head -1)
   echo "$s $p quick -> exit=$rc"
   python3 - "$s" "$p" "$rc" <<'PY'
